@@ -1806,6 +1806,7 @@ func TestVerifC41(t *testing.T) {
 	bases := vEnvInt("VERIF_C41_BASES", 2)
 	laxPer := vEnvInt("VERIF_C41_LAX", 4)
 	budget := vEnvInt("VERIF_C41_BUDGET", 150000)
+	maxSites := vEnvInt("VERIF_C41_SITES", 40)
 	out := vOpen("cases_c41.txt")
 	defer out.Close()
 	kinds := map[string]int{}
@@ -1860,23 +1861,34 @@ func TestVerifC41(t *testing.T) {
 					})
 				}
 			}
-			// declared bounds: exactly at the bound and one above, at up to 3 sites
+			// declared bounds: exactly at the bound and one above, at EVERY bounded site of the instance
+			// that fits the size budget (at most maxSites per instance, random choice beyond that)
 			var sites []vSite
 			vSites(n.Body, ov, &sites)
-			for j := 0; j < 3 && len(sites) > 0; j++ {
-				// work on a fresh copy of the instance so that sites do not interfere
-				cp := vFresh(tmpls[i])
-				if err := protocol.Decode(e, cp); err != nil {
-					break
-				}
-				var cs []vSite
-				vSites(n.Body, reflect.ValueOf(cp).Elem(), &cs)
-				if len(cs) == 0 {
-					break
-				}
-				st := cs[r.Intn(len(cs))]
+			order := make([]int, len(sites))
+			for j := range order {
+				order[j] = j
+			}
+			for j := len(order) - 1; j > 0; j-- {
+				q := r.Intn(j + 1)
+				order[j], order[q] = order[q], order[j]
+			}
+			if len(order) > maxSites {
+				order = order[:maxSites]
+			}
+			for _, j := range order {
 				for _, d := range []int{0, 1} {
-					if vResize(st, int(st.s.Bound)+d, budget) {
+					// work on a fresh copy of the instance so that sites do not interfere
+					cp := vFresh(tmpls[i])
+					if err := protocol.Decode(e, cp); err != nil {
+						break
+					}
+					var cs []vSite
+					vSites(n.Body, reflect.ValueOf(cp).Elem(), &cs)
+					if j >= len(cs) {
+						break
+					}
+					if vResize(cs[j], int(cs[j].s.Bound)+d, budget) {
 						emit([]string{"at-bound", "over-bound"}[d], protocol.Encode(cp))
 					}
 				}
